@@ -200,15 +200,17 @@ func c40Classify(out *c40Outcome, rec *kit.Rec) {
 // ---------------------------------------------------------------- stall diagnosis (goroutine dumps)
 
 var (
-	c40ReHeader = regexp.MustCompile(`^goroutine (\d+) \[([^\]]*)\]:`)
-	c40ReArgs   = regexp.MustCompile(`\(0x[0-9a-f?, x.]*\)$|\(\.\.\.\)$|\(\)$`)
-	c40ReOff    = regexp.MustCompile(` \+0x[0-9a-f]+$`)
-	c40ReInGo   = regexp.MustCompile(` in goroutine \d+$`)
+	c40ReHeader  = regexp.MustCompile(`^goroutine (\d+) \[([^\]]*)\]:`)
+	c40ReArgs    = regexp.MustCompile(`\(0x[0-9a-f?, x.]*\)$|\(\.\.\.\)$|\(\)$`)
+	c40ReOff     = regexp.MustCompile(` \+0x[0-9a-f]+$`)
+	c40ReInGo    = regexp.MustCompile(` in goroutine \d+$`)
+	c40ReMinutes = regexp.MustCompile(`(\d+) minutes`)
 )
 
 type c40G struct {
 	id      int64
 	state   string
+	minutes int    // continuous wait reported by the runtime ("[select, 3 minutes]")
 	norm    string // frames without addresses, argument values and wait times
 	raw     string
 	mtx     bool // has a frame of mediamtx code that is not harness code
@@ -237,6 +239,9 @@ func c40Dump() map[int64]*c40G {
 		g := &c40G{raw: blk}
 		fmt.Sscan(m[1], &g.id)
 		g.state = strings.SplitN(m[2], ",", 2)[0]
+		if mm := c40ReMinutes.FindStringSubmatch(m[2]); mm != nil {
+			fmt.Sscan(mm[1], &g.minutes)
+		}
 		var nl []string
 		for i := 1; i < len(lines); i++ {
 			l := lines[i]
@@ -259,9 +264,14 @@ func c40Dump() map[int64]*c40G {
 	return gs
 }
 
-// c40Diagnose decides between "deadlock signature" and "slow". Signature: the stalled goroutines and every
-// goroutine that executes mediamtx code have exactly the same stack in two dumps taken 10 s apart, and the stalled
-// steps are still the same steps. Up to three rounds, so that a goroutine caught mid-tick does not mask it.
+// c40Diagnose decides between "deadlock signature" and "slow". Signature, on two dumps taken 10 s apart:
+//   - every stalled step goroutine sits in the same blocking call with the same stack in both dumps, is still in
+//     the same step, and (for the default 60 s limit) the runtime itself reports it blocked there for >= 1 minute;
+//   - no goroutine that executes mediamtx code is running or runnable in either dump, i.e. nobody is working
+//     towards the event the stalled goroutine waits for (periodic goroutines - tickers, the always-available
+//     generator - are parked in a timed wait practically always; one caught mid-tick costs a round, not soundness).
+//
+// Up to three rounds. Anything else is reported as VERIF-INCONCLUSIVE, not as a violation.
 func c40Diagnose(stalled []*c40ActorRun, p c40Program, out *c40Outcome) {
 	var desc []string
 	for _, q := range stalled {
@@ -275,6 +285,7 @@ func c40Diagnose(stalled []*c40ActorRun, p c40Program, out *c40Outcome) {
 		desc = append(desc, fmt.Sprintf("A%d:%s step #%d %s", q.idx, q.kind, c, name))
 	}
 	out.stalled = strings.Join(desc, " ; ")
+	needMinutes := c40StepLimit() >= 60*time.Second
 	var last map[int64]*c40G
 	for round := 0; round < 3; round++ {
 		curBefore := make([]int64, len(stalled))
@@ -291,16 +302,17 @@ func c40Diagnose(stalled []*c40ActorRun, p c40Program, out *c40Outcome) {
 				same = false
 			}
 			g1, g2 := d1[q.goid.Load()], d2[q.goid.Load()]
-			if g1 == nil || g2 == nil || g1.norm != g2.norm {
+			if g1 == nil || g2 == nil || g1.norm != g2.norm || g2.state == "running" || g2.state == "runnable" {
+				same = false
+			} else if needMinutes && g2.minutes < 1 {
 				same = false
 			}
 		}
-		for id, g1 := range d1 {
-			if !g1.mtx {
-				continue
-			}
-			if g2 := d2[id]; g2 != nil && g2.norm != g1.norm {
-				same = false
+		for _, d := range []map[int64]*c40G{d1, d2} {
+			for _, g := range d {
+				if g.mtx && (g.state == "running" || g.state == "runnable") {
+					same = false
+				}
 			}
 		}
 		if same {
@@ -486,7 +498,7 @@ func TestVerifC40Programs(t *testing.T) {
 				fmt.Fprintf(os.Stderr, "VERIF-INCONCLUSIVE: a step exceeded %v but goroutines were still moving (slow machine?)\n", c40StepLimit())
 				t.Fatalf("step did not return within %v, progress visible: %s\n%s\n%s", c40StepLimit(), out.stalled, c40Report(p, out), out.stacks)
 			}
-			t.Fatalf("DEADLOCK SIGNATURE: %s did not return within %v and no goroutine inside mediamtx moved during 10 s\n%s\n%s",
+			t.Fatalf("DEADLOCK SIGNATURE: %s did not return within %v; in two goroutine dumps 10 s apart it is blocked in the same call and nobody inside mediamtx is running or runnable\n%s\n%s",
 				out.stalled, c40StepLimit(), c40Report(p, out), out.stacks)
 		}
 		checkRaces(t.Fatalf, &p, out)
